@@ -237,6 +237,11 @@ def _universe_src() -> str:
     L += ["class SOE_base:", "    __slots__ = ('a', 'b')", "class SOE(SOE_base):", "    __slots__ = ()", "    def __init__(self, a, b):", "        self.a = a", "        self.b = b",
           "    def __repr__(self):\n        return 'SOE(a=%r, b=%r)' % (self.a, self.b)", "MAKE['SOE'] = SOE"]
     _reg("SOE", "slots-only", "slots-only", "empty-leaf-slots")
+    # slots spread over a chain of three classes (grandparent `a`, parent `b`, child `c`)
+    L += ["class SO3_a:", "    __slots__ = ('a',)", "class SO3_b(SO3_a):", "    __slots__ = ('b',)", "class SO3(SO3_b):", "    __slots__ = ('c',)",
+          "    def __init__(self, a, b, c=5):", "        self.a = a", "        self.b = b", "        self.c = c",
+          "    def __repr__(self):\n        return 'SO3(a=%r, b=%r, c=%r)' % (self.a, self.b, self.c)", "MAKE['SO3'] = lambda a, b: SO3(a, b)"]
+    _reg("SO3", "slots-only", "slots-only", "three-level-chain")
     # named tuple classes that INHERIT from a named tuple class (the documented way of adding methods)
     L += ["class NT2sub(NT2):", "    __slots__ = ()", "    def first(self):", "        return self.a",
           "class CNT2sub(CNT2):", "    __slots__ = ()"]
